@@ -3,6 +3,7 @@ CONSTANTS
  Protos = {"ipfix", "netflow9", "netflow5", "sflow"}
  TemplateProtos = {"ipfix", "netflow9"}
  Sent = 3
+ Binds = {"wildcard", "127.0.0.1", "::1"}
  ShutdownWaitsForAll = TRUE
  EmitCases = FALSE
 INVARIANTS OnlyEnabledListen EnabledWork PublishedIffProducer CleanExit Emit
